@@ -144,7 +144,18 @@ var violations = []violation{
 		if q.Method != "choquetIntegral" {
 			return false
 		}
-		b["criteria"].([]interface{})[0].(J)["type"] = "cost"
+		// "non-gain": the exact string "cost", or any other spelling / a missing type (the parser demands the exact "gain")
+		cj := b["criteria"].([]interface{})[r.Intn(len(b["criteria"].([]interface{})))].(J)
+		switch r.Intn(4) {
+		case 0:
+			cj["type"] = "cost"
+		case 1:
+			delete(cj, "type")
+		case 2:
+			cj["type"] = "Cost"
+		default:
+			cj["type"] = "loss"
+		}
 		return true
 	}},
 	{"choquet-missing-capacity", func(r *Rng, b J, q *Req) bool {
